@@ -1,4 +1,171 @@
-//! svg / wasm replay entries (need --features svg)
-pub fn handle(name: &str, _a: &[&str]) -> String {
-    format!("UNKNOWN {}", name)
+//! svg / wasm replay entries (compiled with --features svg)
+use crate::convert::svg::SvgBuilder;
+use crate::convert::{Builder, ImageBackgroundShape, Shape};
+
+fn unhex(s: &str) -> Vec<u8> {
+    if s == "-" {
+        return Vec::new();
+    }
+    (0..s.len() / 2).map(|i| u8::from_str_radix(&s[2 * i..2 * i + 2], 16).unwrap()).collect()
+}
+
+fn hex(b: &[u8]) -> String {
+    let mut s = String::with_capacity(b.len() * 2);
+    for x in b {
+        s.push_str(&format!("{:02x}", x));
+    }
+    if s.is_empty() {
+        s.push('-');
+    }
+    s
+}
+
+const SHAPES: [Shape; 6] = [Shape::Square, Shape::Circle, Shape::RoundedSquare, Shape::Vertical, Shape::Horizontal, Shape::Diamond];
+const ISHAPES: [ImageBackgroundShape; 3] = [ImageBackgroundShape::Square, ImageBackgroundShape::Circle, ImageBackgroundShape::RoundedSquare];
+
+fn rgba(s: &str) -> [u8; 4] {
+    let b = unhex(s);
+    [b[0], b[1], b[2], b[3]]
+}
+
+fn kv<'a>(a: &'a [&'a str], key: &str) -> Option<&'a str> {
+    for t in a {
+        if let Some(rest) = t.strip_prefix(key) {
+            if let Some(v) = rest.strip_prefix('=') {
+                return Some(v);
+            }
+        }
+    }
+    None
+}
+
+fn build_svg(a: &[&str]) -> SvgBuilder {
+    let mut b = SvgBuilder::default();
+    if let Some(m) = kv(a, "margin") {
+        b.margin(m.parse().unwrap());
+    }
+    if let Some(c) = kv(a, "bg") {
+        b.background_color(rgba(c));
+    }
+    if let Some(c) = kv(a, "fg") {
+        b.module_color(rgba(c));
+    }
+    if let Some(l) = kv(a, "layers") {
+        for item in l.split(',') {
+            let mut it = item.split(':');
+            let sh = SHAPES[it.next().unwrap().parse::<usize>().unwrap()];
+            match it.next() {
+                Some(c) => b.shape_color(sh, rgba(c)),
+                None => b.shape(sh),
+            };
+        }
+    }
+    if let Some(i) = kv(a, "image") {
+        b.image(String::from_utf8(unhex(i)).unwrap());
+    }
+    if let Some(c) = kv(a, "ibg") {
+        b.image_background_color(rgba(c));
+    }
+    if let Some(s) = kv(a, "ishape") {
+        b.image_background_shape(ISHAPES[s.parse::<usize>().unwrap()]);
+    }
+    if let Some(s) = kv(a, "isize") {
+        b.image_size(s.parse().unwrap());
+    }
+    if let Some(s) = kv(a, "igap") {
+        b.image_gap(s.parse().unwrap());
+    }
+    if let Some(s) = kv(a, "ipos") {
+        let mut it = s.split(',');
+        let x: f64 = it.next().unwrap().parse().unwrap();
+        let y: f64 = it.next().unwrap().parse().unwrap();
+        b.image_position(x, y);
+    }
+    b
+}
+
+pub fn handle(name: &str, a: &[&str]) -> String {
+    match name {
+        "svg" => {
+            // svg v=<version idx> mod=<hex raw modules> [margin= bg= fg= layers= image= ibg= ishape= isize= igap= ipos=]
+            let v: usize = kv(a, "v").unwrap().parse().unwrap();
+            let raw = unhex(kv(a, "mod").unwrap());
+            let mut qr = crate::QRCode::default(17 + 4 * (v + 1));
+            for (i, b) in raw.iter().enumerate() {
+                qr.data[i] = crate::Module(*b);
+            }
+            let before: Vec<u8> = qr.data.iter().map(|m| m.0).collect();
+            let s = build_svg(a).to_str(&qr);
+            let after: Vec<u8> = qr.data.iter().map(|m| m.0).collect();
+            format!("unchanged={} svg={}", before == after, hex(s.as_bytes()))
+        }
+        "svg_to_file" => {
+            let v: usize = kv(a, "v").unwrap().parse().unwrap();
+            let raw = unhex(kv(a, "mod").unwrap());
+            let mut qr = crate::QRCode::default(17 + 4 * (v + 1));
+            for (i, b) in raw.iter().enumerate() {
+                qr.data[i] = crate::Module(*b);
+            }
+            let path = String::from_utf8(unhex(kv(a, "path").unwrap())).unwrap();
+            let b = build_svg(a);
+            let expect = b.to_str(&qr);
+            match b.to_file(&qr, &path) {
+                Ok(()) => {
+                    let got = std::fs::read(&path).unwrap_or_default();
+                    format!("OK same={}", got == expect.as_bytes())
+                }
+                Err(e) => format!("ERR {:?}", e).replace('\n', " "),
+            }
+        }
+        "wasm_color" => {
+            // wasm_color <which 0..2> <hex utf8 string>
+            let s = String::from_utf8(unhex(a[2])).unwrap();
+            let o = crate::wasm_host::SvgOptions::new();
+            let o = match a[1] {
+                "0" => o.module_color(s),
+                "1" => o.background_color(s),
+                _ => o.image_background_color(s),
+            };
+            format!("{:?}", o).replace('\n', " ")
+        }
+        "wasm_qr" => hex(&crate::wasm_host::qr(std::str::from_utf8(&unhex(a[1])).unwrap())),
+        "wasm_svg" => {
+            // wasm_svg <hex content> [size=<s>,<g>] [pos=<hexfloats..>] [image=<hex>] [fg= bg= ibg=<hex utf8 colour strings>] [margin=] [shape=] [ecl=] [version=]
+            let content = String::from_utf8(unhex(a[1])).unwrap();
+            let mut o = crate::wasm_host::SvgOptions::new();
+            if let Some(s) = kv(a, "size") {
+                let mut it = s.split(',');
+                let x: f64 = it.next().unwrap().parse().unwrap();
+                let g: f64 = it.next().unwrap().parse().unwrap();
+                o = o.image_size(x, g);
+            }
+            if let Some(s) = kv(a, "pos") {
+                let v: Vec<f64> = if s == "-" { vec![] } else { s.split(',').map(|t| t.parse().unwrap()).collect() };
+                o = o.image_position(v);
+            }
+            if let Some(s) = kv(a, "image") {
+                o = o.image(String::from_utf8(unhex(s)).unwrap());
+            }
+            if let Some(s) = kv(a, "fg") {
+                o = o.module_color(String::from_utf8(unhex(s)).unwrap());
+            }
+            if let Some(s) = kv(a, "bg") {
+                o = o.background_color(String::from_utf8(unhex(s)).unwrap());
+            }
+            if let Some(s) = kv(a, "ibg") {
+                o = o.image_background_color(String::from_utf8(unhex(s)).unwrap());
+            }
+            if let Some(s) = kv(a, "margin") {
+                o = o.margin(s.parse().unwrap());
+            }
+            if let Some(s) = kv(a, "shape") {
+                o = o.shape(SHAPES[s.parse::<usize>().unwrap()]);
+            }
+            if let Some(s) = kv(a, "ishape") {
+                o = o.image_background_shape(ISHAPES[s.parse::<usize>().unwrap()]);
+            }
+            hex(crate::wasm_host::qr_svg(&content, o).as_bytes())
+        }
+        _ => format!("UNKNOWN {}", name),
+    }
 }
